@@ -448,6 +448,8 @@ class Interp:
         if recv[0] == 'validator':
             return s.call_value(n, p, recv)
         if recv[0] == 'class' and name in s.methods:
+            if any(isinstance(d, ast.Name) and d.id in ('staticmethod', 'classmethod') for d in s.methods[name].decorator_list):
+                return s.inline(n, p, name)
             raise Unsupported('unbound method call at %s' % s.loc(n))
         # method of an opaque object (string formatting, logging ...): opaque result
         res = []
@@ -559,7 +561,12 @@ class Interp:
         a = m.args
         if a.vararg or a.kwarg or a.kwonlyargs or a.posonlyargs:
             raise Unsupported('signature of %s' % name)
-        params = [x.arg for x in a.args][1:]
+        decos = {d.id for d in m.decorator_list if isinstance(d, ast.Name)} | {d.attr for d in m.decorator_list if isinstance(d, ast.Attribute)}
+        if decos - {'staticmethod', 'classmethod'}:
+            raise Unsupported('decorated method %s (%s) called at %s' % (name, sorted(decos), s.loc(n)))
+        static = 'staticmethod' in decos
+        params = [x.arg for x in a.args] if static else [x.arg for x in a.args][1:]
+        first = None if static else (a.args[0].arg if a.args else None)
         for q, vals in s.evargs(n.args, p):
             kwcur = [(q, {})]
             for k in n.keywords:
@@ -573,7 +580,9 @@ class Interp:
                         nxt.append((r2, d2))
                 kwcur = nxt
             for r, kw in kwcur:
-                newlocs = {'self': ('opaque', 'self')}
+                newlocs = {}
+                if first is not None:
+                    newlocs[first] = ('class',) if 'classmethod' in decos else ('opaque', 'self')
                 dcur = [(r, newlocs)]
                 for i, pn in enumerate(params):
                     nxt = []
